@@ -161,8 +161,11 @@ def main(tier, seed, replay=None):
             dis = 0
             for (mode, items), b in zip(sort_cases, blocks):
                 want, _ = gal.decode_dval(b[0])
-                args = {"plain": "", "key": ", key = fn(x) x[0]", "cmp": ", cmp = fn(a, b) compare(b, a)",
-                        "keycmp": ", key = fn(x) x[0], cmp = fn(a, b) compare(b, a)"}[mode]
+                # the comparator contract is the sign of the result: the same order spelled with results of other magnitudes
+                cmpf = rnd.choice(["fn(a, b) compare(b, a)", "fn(a, b) 3 * compare(b, a)", "fn(a, b) compare(b, a) * 1000000000000000000000",
+                                   "fn(a, b) do def c = compare(b, a); if c < 0 then -7 elif c > 0 then 5 else 0 end", "fn(a, b) 0 - compare(a, b) * 2"])
+                args = {"plain": "", "key": ", key = fn(x) x[0]", "cmp": ", cmp = " + cmpf,
+                        "keycmp": ", key = fn(x) x[0], cmp = " + cmpf}[mode]
                 prog = "sorted(%s%s)" % (gal.src(items), args)
                 out = impl.run_src(I, prog)
                 # reference: stable sort by the stated order
